@@ -217,6 +217,15 @@ def gen(repo) -> str:
                             and len(m.args) == 1 and isinstance(m.args[0], ast.Name) and m.args[0].id == inc.args.kwarg.arg):
                         inc_checks = True
 
+    # visitCallTag's DefVisitor: without a visitCallTag method of its own the default traversal descends into nested calls
+    dv = [n for n in ast.walk(vct) if isinstance(n, ast.ClassDef) and n.name == "DefVisitor"]
+    if len(dv) != 1:
+        raise RegenError("%s: visitCallTag has no single DefVisitor class" % rel)
+    dv_methods = {n.name for n in dv[0].body if isinstance(n, ast.FunctionDef)}
+    if not {"visitDefTag", "visitBlockTag"} <= dv_methods:
+        raise RegenError("%s: DefVisitor of visitCallTag lacks visitDefTag/visitBlockTag" % rel)
+    descends = not {"visitCallTag", "visitCallNamespaceTag"} <= dv_methods
+
     out = [HEADER % "mako/codegen.py (TOPLEVEL_DECLARED, RESERVED_NAMES, _Identifiers, _GenerateRenderMethod), mako/template.py (Template.reserved_names, render_context), mako/runtime.py (Context.__getitem__, Context.get)",
            "", "namespace MakoModel.Generated.Names", "",
            "/-- `codegen.TOPLEVEL_DECLARED` (sorted) -/",
@@ -242,6 +251,8 @@ def gen(repo) -> str:
            "def mlocalsUpdateMinusArgs : Bool := " + ("true" if ml_minus_args else "false"),
            "/-- `visitCallTag` removes `caller` from `callable_identifiers.declared` before the defs of the call are written -/",
            "def callDefsDropCaller : Bool := " + ("true" if drop else "false"),
+           "/-- the `DefVisitor` of `visitCallTag` descends into nested `<%call>` tags (it has no `visitCallTag` of its own) -/",
+           "def callDefsDescendCalls : Bool := " + ("true" if descends else "false"),
            "/-- `Context.__getitem__` / `Context.get` decide \"bound in the context\" by key membership, whatever the value -/",
            "def ctxGetItemByMembership : Bool := " + ("true" if getitem_membership else "false"),
            "def ctxGetByMembership : Bool := " + ("true" if get_membership else "false"),
